@@ -201,6 +201,9 @@ pub enum LenSel {
     Blockish(u16),
     Fileish(u16),
     Huge(u16),
+    /// 12 + len divides the payload capacity of a full-block frame (32761 = 181^2): 169 or 32749 bytes, so that
+    /// records of a batch line up with frame boundaries.
+    ItemAligned(bool),
     /// Entry ends `delta` bytes before the end of a block `blocks_ahead` blocks further.
     AimBlockEnd { delta: u8, blocks_ahead: u8 },
     /// Entry ends `delta` bytes before the end of the current WAL file.
@@ -292,6 +295,8 @@ pub struct GenCfg {
     pub styles: bool,
     /// Weight (out of 100) of multi-record batches among appends.
     pub w_multi_batch: u32,
+    /// Weight (added to the 100 above) of uniform batches of item-aligned records (169 B x many, 32749 B x few).
+    pub w_aligned_batch: u32,
     /// Skew `QSel::Existing` towards the first queues (busy queues vs. idle ones).
     pub skew_queues: bool,
 }
@@ -351,6 +356,7 @@ impl Default for GenCfg {
             w_tr_far: 3,
             styles: true,
             w_multi_batch: 45,
+            w_aligned_batch: 3,
             skew_queues: false,
         }
     }
@@ -469,7 +475,20 @@ pub fn batch_strategy(cfg: &GenCfg) -> BoxedStrategy<Vec<PaySel>> {
         return single;
     }
     let multi = proptest::collection::vec(paysel_strategy(cfg), 0..=max_batch).boxed();
-    weighted(vec![(100u32.saturating_sub(cfg.w_multi_batch), single), (cfg.w_multi_batch, multi)])
+    // uniform batches whose records line up with frame boundaries (a lost Middle frame leaves a well-formed splice)
+    let aligned = (any::<bool>(), any::<u64>(), 2usize..=12, 150usize..=420)
+        .prop_map(|(big, seed, count_big, count_small)| {
+            let count = if big { count_big } else { count_small };
+            (0..count)
+                .map(|idx| PaySel { len: LenSel::ItemAligned(big), seed: seed.wrapping_add(idx as u64), style: 0 })
+                .collect::<Vec<PaySel>>()
+        })
+        .boxed();
+    weighted(vec![
+        (100u32.saturating_sub(cfg.w_multi_batch), single),
+        (cfg.w_multi_batch, multi),
+        (cfg.w_aligned_batch, aligned),
+    ])
 }
 
 pub fn sop_strategy(cfg: &GenCfg) -> BoxedStrategy<SOp> {
@@ -672,6 +691,13 @@ pub fn resolve(op: &SOp, ctx: &ResolveCtx) -> COp {
                     LenSel::Blockish(frac) => 20_000 + pick(*frac, 25_000) as u32,
                     LenSel::Fileish(frac) => 60_000 + pick(*frac, 90_000) as u32,
                     LenSel::Huge(frac) => 280_000 + pick(*frac, 40_000) as u32,
+                    LenSel::ItemAligned(big) => {
+                        if *big {
+                            32_749
+                        } else {
+                            169
+                        }
+                    }
                     LenSel::Lit(len) => *len,
                     aimed => {
                         if aimed_idx.is_none() {
